@@ -354,7 +354,7 @@ def read_raw_file(file_in, iter=False):
 #TODO: check impact of having gradient ([i,j,k]) and/not cost
 def read_import(file, *targets):
   "import the targets; targets are name strings"
-  import re, os, types
+  import re, os, sys, types
   _dir, name = os.path.split(file)
   name = re.sub(r'\.py[cod]?$', '', name) #XXX: strip .py* extension
   if _dir and not os.path.isdir(_dir):
@@ -362,12 +362,16 @@ def read_import(file, *targets):
   path = os.path.join(_dir, name + '.py')
   #NOTE: read the given file on each call (not sys.path, or a cached module)
   try:
-    with open(path) as f: code = f.read()
+    with open(path, 'rb') as f: code = f.read() # (bytes, for a coding cookie)
   except FileNotFoundError:
     raise RuntimeError('Module: {0} not found'.format(name))
   module = types.ModuleType(name)
   module.__file__ = path
-  exec(compile(code, path, 'exec'), module.__dict__)
+  sys.path.insert(0, os.path.abspath(_dir)) # for imports made by the file
+  try:
+    exec(compile(code, path, 'exec'), module.__dict__)
+  finally:
+    sys.path.pop(0)
   if not len(targets): return module
   results = [getattr(module, target, None) for target in targets]
   return results[-1] if (len(results) == 1) else results
